@@ -40,6 +40,7 @@ var (
 // RandomCase draws one case of class "random".
 func (w *World) RandomCase(rng *rand.Rand) *Concrete {
 	cc := &Concrete{Idents: map[int][]byte{}}
+	cc.Case.Fl = "core"
 	m := &cc.Case.M
 	m.Mt = pick(rng, []string{"shares", "keys"})
 	m.TopicOk = rng.Float64() < 0.93
